@@ -7,6 +7,8 @@ Node := ["site", dist, [sample_shape]]       dist in {"normal","uniform"}; stand
       | ["vmap", n, Node]                     modular_vmap(axis_size=n)
       | ["cond", Node, Node]                  lax.cond on (previous draw > threshold); both branches sample
       | ["gen", Node]                         a @gen function whose body is Node (sites addressed), simulated
+      | ["nseed", Node, j]                    (opt-in) a nested seed: seed(body)(fold_in(inner_key, j)) called inside the seeded function;
+                                              the inner key is an argument of the outer function (f(scale, ikey))
       | ["remat", Node, "checkpoint"|"custom_jvp"]   (C06 only, opt-in) Node inside jax.checkpoint / a custom_jvp function,
                                               after parameterised deterministic equations; seed may refuse such programs
                                               with the dedicated error - if it accepts them the result must be pure
@@ -16,7 +18,7 @@ so that 'same program, other argument shape' exists).
 from hypothesis import strategies as st
 
 
-def shapes(max_depth=3, max_leaves=6):
+def shapes(max_depth=3, max_leaves=6, nseed=False):
     site = st.tuples(st.just("site"), st.sampled_from(["normal", "normal", "uniform", "uniform_kw", "normal_kw"]), st.sampled_from([[], [], [], [2], [3], [2, 2]])).map(list)
 
     def ext(ch):
@@ -26,9 +28,34 @@ def shapes(max_depth=3, max_leaves=6):
             st.tuples(st.just("vmap"), st.integers(2, 3), ch).map(list),
             st.tuples(st.just("cond"), ch, ch).map(list),
             st.tuples(st.just("gen"), ch).map(list),
+            *([st.tuples(st.just("nseed"), ch, st.integers(0, 1)).map(list)] * (2 if nseed else 0)),
         )
 
-    return st.recursive(site, ext, max_leaves=max_leaves)
+    out = st.recursive(site, ext, max_leaves=max_leaves)
+    return out.map(_no_nseed_in_loops) if nseed else out
+
+
+def _no_nseed_in_loops(node, in_loop=False, counter=None):
+    """A nested seed inside a scan body / vmap lane would reuse one inner key in every iteration (a mistake of the
+    program, not of seed): there the nseed node is replaced by its body.  Every remaining nested seed gets its own
+    fold-in index (two nested seeds with one key would share their stream by construction)."""
+    counter = [0] if counter is None else counter
+    k = node[0]
+    if k == "site":
+        return node
+    if k == "seq":
+        return ["seq", [_no_nseed_in_loops(c, in_loop, counter) for c in node[1]]]
+    if k in ("scan", "vmap"):
+        return [k, node[1], _no_nseed_in_loops(node[2], True, counter)]
+    if k == "cond":
+        return ["cond", _no_nseed_in_loops(node[1], in_loop, counter), _no_nseed_in_loops(node[2], in_loop, counter)]
+    if k == "nseed":
+        if in_loop:
+            return _no_nseed_in_loops(node[1], in_loop, counter)
+        counter[0] += 1
+        j = counter[0]
+        return ["nseed", _no_nseed_in_loops(node[1], in_loop, counter), j]
+    return [k, _no_nseed_in_loops(node[1], in_loop, counter)] + list(node[2:])
 
 
 def kinds(node, enclosing=(), acc=None):
@@ -48,6 +75,8 @@ def kinds(node, enclosing=(), acc=None):
         kinds(node[1], enclosing + ("gen",), acc)
     elif k == "remat":
         kinds(node[1], enclosing + ("remat",), acc)
+    elif k == "nseed":
+        kinds(node[1], enclosing + ("nseed",), acc)
     return acc
 
 
@@ -68,10 +97,11 @@ def build(node):
     import jax
     import jax.numpy as jnp
     import genjax
-    from genjax import gen, modular_vmap
+    from genjax import gen, modular_vmap, seed
 
     D = {"normal": genjax.normal, "uniform": genjax.uniform}
     counter = [0]
+    ikey_box = {"key": None}
 
     def _draw(nd):
         """standard-parameter draw; the *_kw variants pass the parameters by keyword (names whose sorted order differs
@@ -135,6 +165,16 @@ def build(node):
                     out[path + f"/cond{which}" + p] = v
                 res = res + s
             return res
+        if k == "nseed":
+            def body(l):
+                o = {}
+                s = run(nd[1], scale, o, "", l)
+                return s, o
+
+            s, o = seed(body)(jax.random.fold_in(ikey_box["key"], nd[2]), last)
+            for p, v in o.items():
+                out[path + "/nseed" + p] = v
+            return s
         if k == "remat":
             def inner(l):
                 o = {}
@@ -158,7 +198,7 @@ def build(node):
             @gen
             def g(sc):
                 o = {}
-                _addr_run(sub, sc, o, "")
+                _addr_run(sub, sc, o, "", [0])
                 return o
 
             tr = g.simulate(scale)
@@ -168,11 +208,12 @@ def build(node):
             return jnp.sum(tr.get_score()) * 0.0 + sum(jnp.sum(v) for v in o.values())
         raise ValueError(nd)
 
-    def _addr_run(nd, scale, out, path):
-        """inside a @gen body: sites are addressed choices; combinators fall back to plain sampling code"""
+    def _addr_run(nd, scale, out, path, cnt):
+        """inside a @gen body: sites are addressed choices (numbered in program order); combinators fall back to plain sampling code"""
         k = nd[0]
         if k == "site":
-            n = len(out)
+            n = cnt[0]
+            cnt[0] += 1
             if nd[2] or nd[1].endswith("_kw"):
                 v = _draw(nd)
             else:
@@ -180,14 +221,15 @@ def build(node):
             out[path + f"/a{n}"] = v * scale
         elif k == "seq":
             for i, c in enumerate(nd[1]):
-                _addr_run(c, scale, out, path + f"/{i}")
+                _addr_run(c, scale, out, path + f"/{i}", cnt)
         else:
             o = {}
             run(nd, scale, o, path, jnp.zeros((), jnp.float32))
             out.update(o)
 
-    def f(scale=1.0):
+    def f(scale=1.0, ikey=None):
         out = {}
+        ikey_box["key"] = ikey
         run(node, jnp.asarray(scale, dtype=jnp.float32), out, "", jnp.zeros((), jnp.float32))
         return out
 
